@@ -3,9 +3,11 @@
 package scipipe
 
 import (
+	"bytes"
 	"fmt"
 	"math/rand"
 	"os"
+	"runtime"
 	"strconv"
 	"strings"
 	"sync"
@@ -54,7 +56,7 @@ func verifPoint(name string, keys ...string) {
 	verifHits[name]++
 	n := verifHits[name]
 	if verifLog != nil {
-		fmt.Fprintf(verifLog, "%d %s %d %s\n", time.Now().UnixNano(), name, n, strings.Join(keys, " "))
+		fmt.Fprintf(verifLog, "%d %s %d g%d %s\n", time.Now().UnixNano(), name, n, verifGoid(), strings.Join(keys, " "))
 	}
 	crash := verifCrashAt == name && verifCrashN == n
 	delay := 0
@@ -72,4 +74,24 @@ func verifPoint(name string, keys ...string) {
 	if delay > 0 {
 		time.Sleep(time.Duration(delay) * time.Microsecond)
 	}
+}
+
+// verifGoid returns the id of the calling goroutine (parsed from the stack header; verif builds only)
+func verifGoid() int {
+	var buf [64]byte
+	b := buf[:runtime.Stack(buf[:], false)]
+	b = bytes.TrimPrefix(b, []byte("goroutine "))
+	if i := bytes.IndexByte(b, ' '); i > 0 {
+		n, _ := strconv.Atoi(string(b[:i]))
+		return n
+	}
+	return 0
+}
+
+// verifPortName returns the process-qualified name of a port
+func verifPortName(proc WorkflowProcess, name string) string {
+	if proc == nil {
+		return name
+	}
+	return proc.Name() + "." + name
 }
